@@ -470,7 +470,7 @@ func (e *Engine) verifyFunc(key string, timeoutS, seed int, allSolvers bool, sol
 			}
 		}
 	}
-	if con != nil && len(con.Modifies) > 0 && !con.Trusted {
+	if con != nil && (len(con.Modifies) > 0 || len(con.Ensures) > 0) && !con.Trusted {
 		// a declared frame can only be justified if everything the function calls is itself under contract:
 		// a callee without one may change state outside the frame
 		var unk []string
@@ -480,10 +480,10 @@ func (e *Engine) verifyFunc(key string, timeoutS, seed int, allSolvers bool, sol
 			}
 		}
 		goal := "true"
-		note := "every callee of a function that declares a frame is under contract"
+		note := "every callee of a function whose contract callers rely on (frame and postconditions) is under contract"
 		if len(unk) > 0 {
 			goal = "false"
-			note = "callees without contract in a function that declares a frame (modifies …): " + strings.Join(unk, ", ")
+			note = "callees without contract in a function whose contract callers rely on: " + strings.Join(unk, ", ")
 		}
 		fe.oblige(fr, "frame:callees_under_contract", frameProps(con), "true", goal, fn.Pos(), note)
 	}
@@ -533,7 +533,7 @@ func (e *Engine) verifyFunc(key string, timeoutS, seed int, allSolvers bool, sol
 
 // benignUnknown: callees that cannot touch tracked state (pure accessors of dependencies, error constructors).
 func benignUnknown(key string) bool {
-	for _, p := range []string{"go-cid.", "go-multihash.", "go-block-format.", "go-varint.", "fmt.", "errors.", "math.", "bytes.", "strings.", "strconv.", "sort.", "context.", "unsafe.", "dynamic:func(", "multicodec.", "encoding/binary.", "GoLLRB", "sync.Pool", "io.Discard"} {
+	for _, p := range []string{"go-cid.", "go-multihash.", "go-block-format.", "go-varint.", "fmt.", "errors.", "math.", "bytes.", "strings.", "strconv.", "sort.", "context.", "unsafe.", "dynamic:", "multicodec.", "encoding/binary.", "GoLLRB", "sync.Pool", "io.Discard"} {
 		if strings.Contains(key, p) {
 			return true
 		}
